@@ -59,7 +59,12 @@ func (c *counterBox) inc() { c.n++ }
 // settleAfterCancel runs a fair schedule, advancing the clock at quiescence only, until
 // done() or the bounds (1 simulated second, 20000 steps) are exceeded.
 func settleAfterCancel(rc *RunCtx, done func() bool, bound time.Duration) (bool, string) {
+	// a fair schedule: either every task runs until it blocks, or (taped) uniformly random
+	// turns, so that both "the worker returns first" and "its helpers finish first" occur
 	rc.Sim.Policy = simrt.PolicyRunToBlock
+	if rc.Sim.Tape.Choose(2, "settle.policy") == 1 {
+		rc.Sim.Policy = simrt.PolicyRandom
+	}
 	rc.Sim.Frozen = nil
 	t0 := rc.SimNow()
 	steps0 := rc.Sim.Steps
@@ -363,9 +368,31 @@ func scnC13Read(rc *RunCtx) {
 		audits <- l + "\n"
 	}
 	pipelinePolicy(rc)
-	mode := t.Choose(3, "state")
+	mode := t.Choose(4, "state")
 	step := -1
+	if mode == 3 {
+		// a record group of the bound session that lacks its terminating record: only the
+		// periodic maintenance (2 s time-out, 500 ms tick) releases it
+		inc := k.Exec("610", pid+300, 1000, []string{"ls", "-la"}, true, true, false)
+		for _, l := range inc.Lines[:len(inc.Lines)-1] {
+			audits <- l + "\n"
+		}
+	}
 	switch mode {
+	case 3: // cancel while the maintenance goroutine is delivering a timed-out event
+		runToStepOrState(rc, func() bool { return len(audits) == 0 && loginSent.v }, -1, 1500)
+		before := len(rec.Events)
+		// advance to just before the time-out, then cancel at a taped step of the tick that evicts
+		for i := 0; i < 30 && len(rec.Events) == before; i++ {
+			time.Sleep(100 * time.Millisecond)
+			step = t.Choose(14, "cancel.step3")
+			n := 0
+			rc.Sim.RunUntil(func() bool { n++; return n > step }, 5000)
+			if len(rc.Sim.Ready()) > 0 {
+				break // some task is in the middle of its work: cancel now
+			}
+		}
+		rc.Sim.Count("cancel_during_maintenance_tick")
 	case 0: // idle: everything consumed
 		runToStepOrState(rc, func() bool { return len(audits) == 0 && loginSent.v }, -1, 3000)
 		quietFor(rc, time.Duration(t.Choose(3, "idle.s"))*time.Second)
@@ -385,7 +412,7 @@ func scnC13Read(rc *RunCtx) {
 	ok, why := settleAfterCancel(rc, func() bool { return res.v }, time.Second)
 	rc.CaseKey(mode, queued, step)
 	rc.R.NonTrivial = true
-	rc.R.Sample = map[string]any{"worker": "auditd.Read", "state": []string{"idle", "lines-queued", "mid-push"}[mode], "lines": len(lines), "queued_at_cancel": qAtCancel, "cancel_at_step": step, "returned": res.v, "err": fmt.Sprint(res.err)}
+	rc.R.Sample = map[string]any{"worker": "auditd.Read", "state": []string{"idle", "lines-queued", "mid-push", "maintenance-flush"}[mode], "lines": len(lines), "queued_at_cancel": qAtCancel, "cancel_at_step": step, "returned": res.v, "err": fmt.Sprint(res.err)}
 	if !ok {
 		rc.Fail("C13", "no-return-read", "auditd.Read did not return after cancellation (%s): %v", why, rc.Sim.Live())
 		return
